@@ -60,7 +60,9 @@ BlockChecks(p, e, t) ==
     \cup NameIf(HeaderRule(p, o, acc, t), "HeaderRule")
     \cup NameIf(~acc => ToSet(e.obs.db_changed) \subseteq (IF t.hdrs # p.hdrs THEN HeaderKeys ELSE {}), "RejectKeepsStore")
     \cup NameIf(Complete(p, o, acc), "Complete")
-    \cup NameIf(~e.pred.has \/ (e.pred.acc = acc /\ (acc \/ e.pred.hdr = (t.hdrs # p.hdrs))), "ImplPrediction")
+    \* the code-shaped model's prediction (as the pinned tree behaves, or as the design model says)
+    \cup NameIf(~e.pred.has \/ (e.pred.acc = acc /\ (acc \/ e.pred.hdr = (t.hdrs # p.hdrs)))
+                             \/ (e.pred.alt_acc = acc /\ (acc \/ e.pred.alt_hdr = (t.hdrs # p.hdrs))), "ImplPrediction")
 
 HeaderChecks(p, e, t) ==
     LET o == e.attrs  rec == t.hdrs # p.hdrs IN
@@ -69,7 +71,7 @@ HeaderChecks(p, e, t) ==
     \cup NameIf(HdrEffect(p, o, rec, t), "HdrEffect")
     \cup NameIf(HdrKeepsLedger(p, t) /\ e.obs.led_changed = <<>>, "HdrKeepsLedger")
     \cup NameIf(ToSet(e.obs.db_changed) \subseteq (IF rec THEN HeaderKeys ELSE {}), "HdrKeepsStore")
-    \cup NameIf(~e.pred.has \/ e.pred.acc = rec, "ImplPrediction")
+    \cup NameIf(~e.pred.has \/ e.pred.acc = rec \/ e.pred.alt_acc = rec, "ImplPrediction")
 
 Correct == [idx |-> "next", prev |-> TRUE, ts |-> "later", merkle |-> TRUE, srflag |-> TRUE, prevroot |-> TRUE,
             wit |-> TRUE, txdef |-> "none", hid |-> "c", free |-> FALSE]
